@@ -1,6 +1,9 @@
 import Chewing.Props.C04
+import Chewing.Props.C06
+import Chewing.Proofs.EditorCursor
+import Chewing.Proofs.EditorBound
 /-!
-# C05 — editing keys act exactly at the cursor and the buffer stays bounded (component level)
+# C05 — editing keys act exactly at the cursor and the buffer stays bounded
 
 Stage A of DESIGN §12: everything that can be said about `CompositionEditor`
 (`src/editor/composition_editor.rs`) alone, for every state and every sequence of its methods.
@@ -24,10 +27,13 @@ What is proved here
 * totality where the editor relies on it: `insert_total`, `backspace_total`, `insert_gap_total`,
   `delete_ok_iff`, `replace_ok_iff`, `remove_front_ok_iff`.
 
-NOT here (needs the editor state machine `src/editor/mod.rs`, later work on top of this model):
-the per-key lift (`syllable_commit_inserts_one`, which key calls which method in which state,
-`easy_symbol_expansion`) and `bounded_after_key` (auto-commit re-establishes `len ≤ limit`; needs
-the tiling theorem of C03).
+Editor level (second half of this file, for every environment): `Reach` / `cursor_le_len_editor`
+(every public operation, every history), the per-key theorems `backspace_key`, `delete_key`, `move_key`,
+`symbol_key_inserts_at_cursor`, `easy_symbol_expansion`, `syllable_commit_inserts_one`,
+`syllable_commit_no_word`, and the bound `tryAutoCommit_bound`, `bounded_after_absorb`,
+`bounded_after_key` (under `TilingEnv`, C03's theorem about the engines, as a hypothesis on `env`).
+The per-key theorems are stated on `dispatch` (the state's `next`), i.e. before the auto-commit tail;
+`tail_com` + `tryAutoCommit_bound` say what the tail adds (a prefix is cut off, cursor shifted).
 -/
 namespace Chewing.C05
 open Chewing Chewing.C04
@@ -386,5 +392,813 @@ example : ∃ e', demoEd.removeAfterCursor = .ok e' ∧ e'.symbols = [.syl 0x2A4
 /-- save the cursor, delete two symbols, restore: the restored cursor is clamped to the new length -/
 example : ∃ e1, demoEd.moveToEnd.pushCursor.run [.removeBeforeCursor, .removeBeforeCursor] = .ok e1 ∧
     e1.popCursor.cursor = 1 ∧ e1.popCursor.stack = [3] := ⟨_, rfl, rfl, rfl⟩
+
+/-! # Editor level
+
+Everything below is about the editor state machine (`Model/Editor.lean`, `src/editor/mod.rs`), for
+EVERY environment `env` (dictionary, phonetic layout, conversion engine, estimator).
+
+## The invariant: `cursor ≤ len` after every public operation, in every state
+
+The editor touches its pre-edit buffer only through `CompositionEditor` methods
+(`Proofs/EditorCursor.lean`: `Reach`), and `cursor_le_len_step` needs no precondition on the method
+arguments — in particular none on the interval that `Selecting::select` pushes (`ValidSelection` is
+needed for the selection invariants of C04, not for the cursor) — so the invariant lifts to every
+operation and every history with NO hypothesis on the environment or the selector. -/
+
+open Chewing.C06
+
+section EditorLevel
+variable {D L : Type} (env : Env D L)
+
+theorem map_ok {α β : Type} {f : α → β} {r : Outcome α} {b : β} (h : r.map f = .ok b) : ∃ a, r = .ok a ∧ f a = b := by
+  cases r with
+  | ok a => simp only [Outcome.map] at h; injection h with h; exact ⟨a, rfl, h⟩
+  | panic p => simp [Outcome.map] at h
+  | outOfFuel => simp [Outcome.map] at h
+
+/-- the component invariant lifts along `Reach` -/
+theorem reach_cursorInv {c c' : CompEditor} (h : Reach c c') (hi : CursorInv c) : CursorInv c' := by
+  induction h with
+  | refl _ => exact hi
+  | step op h _ ih => exact ih (cursor_le_len_step _ op _ hi h)
+
+/-- the state machine part of a key touches the pre-edit only through `CompositionEditor` methods -/
+theorem dispatch_reach {e : Editor D L} {ev : KeyEvent} {sh : Shared D L} {st : St}
+    (h : dispatch env e ev = .ok (sh, st)) : Reach e.shared.com sh.com := by
+  unfold dispatch at h
+  split at h
+  · obtain ⟨⟨sh', t⟩, hr, hx⟩ := map_ok h
+    have := rstep_enteringNext env (preamble e.shared) ev sh' t hr
+    cases t <;> (simp only [applyTrans] at hx; injection hx with h1 h2; subst h1; exact this)
+  · obtain ⟨⟨sh', t⟩, hr, hx⟩ := map_ok h
+    have := rstep_enteringSyllableNext env (preamble e.shared) ev sh' t hr
+    cases t <;> (simp only [applyTrans] at hx; injection hx with h1 h2; subst h1; exact this)
+  · rename_i s _
+    obtain ⟨x, hr, hx⟩ := map_ok h
+    have := rsel_selectingNext env s (preamble e.shared) ev x hr
+    cases ht : x.trans <;> (rw [ht] at hx; simp only [applyTrans] at hx; injection hx with h1 h2; subst h1; exact this)
+  · rename_i m _
+    obtain ⟨⟨sh', m', t⟩, hr, hx⟩ := map_ok h
+    have := (highlighting_reach env m (preamble e.shared) ev).elim hr
+    cases t <;> (simp only [applyTrans] at hx; injection hx with h1 h2; subst h1; exact this)
+
+/-- the tail of `process_keyevent`: state kept, result = recorded behaviour, shared state = result of
+    the (conditional) auto-commit with a dirty dictionary flushed -/
+theorem tail_spec {sh : Shared D L} {st : St} {e' : Editor D L} {b : KB} (h : tail env sh st = .ok (e', b)) :
+    e'.state = st ∧ b = e'.shared.last ∧
+    ∃ sh2, (if st == .entering && sh.last == .absorb then Shared.tryAutoCommit env sh else .ok sh) = .ok sh2 ∧
+      e'.shared = (if sh2.dirty > 0 then { sh2 with dict := env.reopenFlush sh2.dict, dirty := 0 } else sh2) := by
+  unfold tail at h
+  split at h
+  · cases h
+  · cases h
+  · rename_i sh2 hq
+    injection h with h; injection h with h1 h2
+    subst h1
+    exact ⟨rfl, h2.symm, sh2, hq, rfl⟩
+
+theorem tail_com {sh : Shared D L} {st : St} {e' : Editor D L} {b : KB} (h : tail env sh st = .ok (e', b)) :
+    ∃ sh2, (if st == .entering && sh.last == .absorb then Shared.tryAutoCommit env sh else .ok sh) = .ok sh2 ∧
+      e'.shared.com = sh2.com ∧ e'.shared.options = sh2.options ∧ e'.shared.commitBuf = sh2.commitBuf ∧
+      e'.shared.last = sh2.last ∧ e'.shared.syl = sh2.syl := by
+  obtain ⟨_, _, sh2, h1, h2⟩ := tail_spec env h
+  refine ⟨sh2, h1, ?_⟩
+  rw [h2]
+  split <;> exact ⟨rfl, rfl, rfl, rfl, rfl⟩
+
+theorem tail_reach {sh : Shared D L} {st : St} {e' : Editor D L} {b : KB} (h : tail env sh st = .ok (e', b)) :
+    Reach sh.com e'.shared.com := by
+  obtain ⟨sh2, h1, h2, _⟩ := tail_com env h
+  rw [h2]
+  split at h1
+  · exact (tryAutoCommit_reach env sh).elim h1
+  · cases h1; exact .refl _
+
+/-- a key event = the state's `next`, then the tail -/
+theorem processKey_split {e e' : Editor D L} {ev : KeyEvent} {b : KB} (h : e.processKey env ev = .ok (e', b)) :
+    ∃ sh st, dispatch env e ev = .ok (sh, st) ∧ tail env sh st = .ok (e', b) := by
+  rw [processKey_eq] at h
+  split at h
+  · cases h
+  · cases h
+  · rename_i sh st hd; exact ⟨sh, st, hd, h⟩
+
+theorem processKey_reach {e e' : Editor D L} {ev : KeyEvent} {b : KB} (h : e.processKey env ev = .ok (e', b)) :
+    Reach e.shared.com e'.shared.com := by
+  obtain ⟨sh, st, h1, h2⟩ := processKey_split env h
+  exact (dispatch_reach env h1).trans (tail_reach env h2)
+
+theorem select_api_reach {e e' : Editor D L} {n : Nat} {okk : Bool} (h : e.select env n = .ok (e', okk)) :
+    Reach e.shared.com e'.shared.com := by
+  unfold Editor.select at h
+  split at h
+  · rename_i s _
+    split at h
+    · rename_i s' sh t hq
+      have hr : Reach e.shared.com sh.com := (select_reach env s e.shared n).elim hq
+      dsimp only at h
+      have hat : (applyTrans sh (.selecting s') t).1.com = sh.com := by cases t <;> rfl
+      split at h
+      · rename_i sh2 hq2
+        injection h with h; injection h with h1 h2; subst h1
+        refine hr.trans ?_
+        rw [← hat]
+        split at hq2
+        · exact (tryAutoCommit_reach env _).elim hq2
+        · cases hq2; exact .refl _
+      · cases h
+      · cases h
+    · cases h
+    · cases h
+  · injection h with h; injection h with h1 h2; subst h1; exact .refl _
+
+theorem leaveIfEmpty_shared (e : Editor D L) : (Editor.leaveIfEmpty env e).shared = e.shared := by
+  unfold Editor.leaveIfEmpty; split <;> rfl
+
+theorem startSelecting_api_reach {e e' : Editor D L} {okk : Bool} (h : e.startSelecting env = .ok (e', okk)) :
+    Reach e.shared.com e'.shared.com := by
+  unfold Editor.startSelecting at h
+  dsimp only at h
+  split at h
+  · rename_i sh t hq
+    injection h with h; injection h with h1 h2; subst h1
+    rw [leaveIfEmpty_shared]
+    have hat : (applyTrans sh e.state t).1.com = sh.com := by cases t <;> rfl
+    show Reach e.shared.com (applyTrans sh e.state t).1.com
+    rw [hat]
+    split at hq
+    · exact rstep_startSelecting env e.shared sh t hq
+    · exact rstep_startSelecting env { e.shared with syl := env.clearSyl e.shared.syl } sh t hq
+    · injection hq with hq; injection hq with h1 h2; subst h1; exact .refl _
+  · cases h
+  · cases h
+
+theorem commit_api_reach {e e' : Editor D L} {okk : Bool} (h : e.commit env = .ok (e', okk)) :
+    Reach e.shared.com e'.shared.com := by
+  unfold Editor.commit at h
+  split at h
+  · injection h with h; injection h with h1 h2; subst h1; exact .refl _
+  · split at h
+    · rename_i sh hq
+      injection h with h; injection h with h1 h2; subst h1
+      show Reach e.shared.com sh.com
+      rw [(commit_com env e.shared).elim hq]
+      exact Reach.clear _
+    · cases h
+    · cases h
+
+theorem jump_shared {e e' : Editor D L} {w : Nat} {okk : Bool} (h : e.jump env w = .ok (e', okk)) :
+    e'.shared = e.shared := by
+  unfold Editor.jump at h
+  repeat' (first | split at h | (dsimp only at h; split at h))
+  all_goals first
+    | (injection h with h; injection h with h1 h2; subst h1; rfl)
+    | cases h
+
+/-- **every public operation of the editor acts on the pre-edit buffer through `CompositionEditor`
+    methods only** -/
+theorem apply_reach {e e' : Editor D L} (op : Op L) (h : e.apply env op = .ok e') :
+    Reach e.shared.com e'.shared.com := by
+  cases op with
+  | key ev =>
+    obtain ⟨⟨e1, b⟩, hr, hx⟩ := map_ok h; subst hx; exact processKey_reach env hr
+  | select n =>
+    obtain ⟨⟨e1, b⟩, hr, hx⟩ := map_ok h; subst hx; exact select_api_reach env hr
+  | startSelecting =>
+    obtain ⟨⟨e1, b⟩, hr, hx⟩ := map_ok h; subst hx; exact startSelecting_api_reach env hr
+  | cancelSelecting =>
+    simp only [Editor.apply, Editor.cancelSelecting] at h
+    injection h with h; subst h
+    split
+    · exact Reach.popCursor _
+    · exact .refl _
+  | commit =>
+    obtain ⟨⟨e1, b⟩, hr, hx⟩ := map_ok h; subst hx; exact commit_api_reach env hr
+  | clear => injection h with h; subst h; exact Reach.clear _
+  | ack => injection h with h; subst h; exact .refl _
+  | clearSyl =>
+    injection h with h; subst h
+    show Reach e.shared.com (Editor.leaveIfEmpty env _).shared.com
+    rw [leaveIfEmpty_shared]; exact .refl _
+  | setOptions o =>
+    injection h with h; subst h
+    show Reach e.shared.com (Editor.leaveIfEmpty env _).shared.com
+    rw [leaveIfEmpty_shared]
+    dsimp only
+    split <;> exact .refl _
+  | setLayout l =>
+    injection h with h; subst h
+    show Reach e.shared.com (Editor.leaveIfEmpty env _).shared.com
+    rw [leaveIfEmpty_shared]; exact .refl _
+  | setEngine k => injection h with h; subst h; exact .refl _
+  | learn k p =>
+    obtain ⟨⟨sh, b⟩, hr, hx⟩ := map_ok h; subst hx
+    show Reach e.shared.com sh.com
+    rw [(learnPhrase_com env e.shared k p).elim hr]; exact .refl _
+  | unlearn k p => injection h with h; subst h; exact .refl _
+  | jump w =>
+    obtain ⟨⟨e1, b⟩, hr, hx⟩ := map_ok h; subst hx
+    show Reach e.shared.com e1.shared.com
+    rw [jump_shared env hr]; exact .refl _
+
+theorem run_reach (ops : List (Op L)) : ∀ (e e' : Editor D L), e.run env ops = .ok e' →
+    Reach e.shared.com e'.shared.com := by
+  induction ops with
+  | nil => intro e e' h; simp only [Editor.run] at h; cases h; exact .refl _
+  | cons op ops ih =>
+    intro e e' h
+    simp only [Editor.run] at h
+    split at h
+    · next e1 h1 => exact (apply_reach env op h1).trans (ih e1 e' h)
+    · cases h
+    · cases h
+
+/-- **C05, invariant (one operation).**  `cursor ≤ len` (and `symbols.len() == gaps.len()`) is kept by
+    every public operation of the editor: every key in every state, `select`, `start_selecting`, … —
+    for every environment, with no hypothesis on the selector, the dictionary or the engine
+    (the `CompositionEditor` methods clamp / saturate by themselves). -/
+theorem cursor_le_len_editor_step {e e' : Editor D L} (op : Op L) (hi : CursorInv e.shared.com)
+    (h : e.apply env op = .ok e') : CursorInv e'.shared.com :=
+  reach_cursorInv (apply_reach env op h) hi
+
+/-- **C05, invariant (every history).** -/
+theorem cursor_le_len_editor (ops : List (Op L)) (e e' : Editor D L) (hi : CursorInv e.shared.com)
+    (h : e.run env ops = .ok e') : CursorInv e'.shared.com :=
+  reach_cursorInv (run_reach env ops e e' h) hi
+
+/-- from a fresh editor: the cursor lies between 0 and the buffer length after every history -/
+theorem cursor_le_len_editor_fresh (ops : List (Op L)) (e e' : Editor D L) (h0 : e.shared.com = {})
+    (h : e.run env ops = .ok e') : e'.shared.com.cursor ≤ e'.shared.com.len :=
+  (cursor_le_len_editor env ops e e' (by rw [h0]; exact cursorInv_new) h).2
+
+end EditorLevel
+
+section EditorKeys
+variable {D L : Type} (env : Env D L)
+
+theorem dispatch_entering_eq {e : Editor D L} (ev : KeyEvent) (hs : e.state = .entering) :
+    dispatch env e ev =
+      (enteringNext env (preamble e.shared) ev).map fun (sh', t) => applyTrans sh' .entering t := by
+  unfold dispatch; rw [hs]
+
+theorem dispatch_syllable_eq {e : Editor D L} (ev : KeyEvent) (hs : e.state = .enteringSyllable) :
+    dispatch env e ev =
+      (enteringSyllableNext env (preamble e.shared) ev).map fun (sh', t) => applyTrans sh' .enteringSyllable t := by
+  unfold dispatch; rw [hs]
+
+theorem eraseIdx_pred {α : Type} (s : List α) (c : Nat) (h : 0 < c) :
+    s.take (c - 1) ++ s.drop c = s.eraseIdx (c - 1) := by
+  rw [List.eraseIdx_eq_take_drop_succ]; congr 2; omega
+
+/-- **Backspace** in `Entering`: ignored on an empty buffer; otherwise absorbed, and exactly the
+    symbol before the cursor is removed (nothing at cursor 0) -/
+theorem backspace_key {e : Editor D L} {ev : KeyEvent} {sh : Shared D L} {st : St}
+    (hs : e.state = .entering) (hk : ev.code = KC.backspace) (h : dispatch env e ev = .ok (sh, st)) :
+    st = .entering ∧
+    (e.shared.com.isEmpty = true → sh.last = .ignore ∧ sh.com = e.shared.com) ∧
+    (e.shared.com.isEmpty = false → sh.last = .absorb ∧
+      (e.shared.com.cursor = 0 → sh.com = e.shared.com) ∧
+      (0 < e.shared.com.cursor →
+        sh.com.symbols = e.shared.com.symbols.eraseIdx (e.shared.com.cursor - 1) ∧
+        sh.com.cursor = e.shared.com.cursor - 1 ∧ sh.com.stack = e.shared.com.stack)) := by
+  rw [dispatch_entering_eq env ev hs, enteringNext_backspace env hk] at h
+  obtain ⟨⟨sh', t⟩, hr, hx⟩ := map_ok h
+  unfold enteringBackspace at hr
+  split at hr
+  · next he =>
+    injection hr with hr; injection hr with h1 h2; subst h1 h2
+    simp only [applyTrans] at hx; injection hx with h1 h2; subst h1 h2
+    exact ⟨rfl, fun _ => ⟨rfl, rfl⟩, fun hne => by rw [show (preamble e.shared).com = e.shared.com from rfl] at he; simp [hne] at he⟩
+  · next he =>
+    obtain ⟨c, hc, hk⟩ := withCom_ok hr
+    injection hk with hk; injection hk with h1 h2; subst h1 h2
+    simp only [applyTrans] at hx; injection hx with h1 h2; subst h1 h2
+    have hf := backspace_frame _ _ hc
+    refine ⟨rfl, fun he' => ?_, fun _ => ⟨rfl, fun h0 => hf.1 h0, fun hp => ?_⟩⟩
+    · rw [show (preamble e.shared).com = e.shared.com from rfl] at he; exact absurd he' he
+    · obtain ⟨a, b, c', _⟩ := hf.2 hp
+      exact ⟨by rw [← eraseIdx_pred _ _ hp]; exact a, b, c'⟩
+
+/-- **Delete** in `Entering`: ignored at the end of the buffer; otherwise absorbed, and exactly the
+    symbol at the cursor is removed, the cursor stays -/
+theorem delete_key {e : Editor D L} {ev : KeyEvent} {sh : Shared D L} {st : St}
+    (hs : e.state = .entering) (hk : ev.code = KC.del) (h : dispatch env e ev = .ok (sh, st)) :
+    st = .entering ∧
+    (e.shared.com.isEob = true → sh.last = .ignore ∧ sh.com = e.shared.com) ∧
+    (e.shared.com.isEob = false → sh.last = .absorb ∧
+      sh.com.symbols = e.shared.com.symbols.eraseIdx e.shared.com.cursor ∧
+      sh.com.cursor = e.shared.com.cursor ∧ sh.com.stack = e.shared.com.stack) := by
+  rw [dispatch_entering_eq env ev hs, enteringNext_del env hk] at h
+  obtain ⟨⟨sh', t⟩, hr, hx⟩ := map_ok h
+  unfold enteringDel at hr
+  split at hr
+  · next he =>
+    injection hr with hr; injection hr with h1 h2; subst h1 h2
+    simp only [applyTrans] at hx; injection hx with h1 h2; subst h1 h2
+    exact ⟨rfl, fun _ => ⟨rfl, rfl⟩, fun hne => by rw [show (preamble e.shared).com = e.shared.com from rfl] at he; simp [hne] at he⟩
+  · next he =>
+    obtain ⟨c, hc, hk⟩ := withCom_ok hr
+    injection hk with hk; injection hk with h1 h2; subst h1 h2
+    simp only [applyTrans] at hx; injection hx with h1 h2; subst h1 h2
+    obtain ⟨_, a, b, c'⟩ := delete_frame _ _ hc
+    refine ⟨rfl, fun he' => ?_, fun _ => ⟨rfl, ?_, b, c'⟩⟩
+    · rw [show (preamble e.shared).com = e.shared.com from rfl] at he; exact absurd he' he
+    · rw [List.eraseIdx_eq_take_drop_succ]; exact a
+
+/-- the cursor keys of `Entering` -/
+inductive MoveKey (ev : KeyEvent) : Prop
+  | home (h : ev.code = KC.home)
+  | left (h : ev.code = KC.left) (hs : ev.mods.shift = false)
+  | right (h : ev.code = KC.right) (hs : ev.mods.shift = false)
+  | toEnd (h : ev.code = KC.end_ ∨ ev.code = KC.pageUp ∨ ev.code = KC.pageDown)
+
+/-- where a cursor key puts the cursor -/
+def moveTarget (ev : KeyEvent) (c : CompEditor) : Nat :=
+  if ev.code = KC.home then 0
+  else if ev.code = KC.left then c.cursor - 1
+  else if ev.code = KC.right then min (c.cursor + 1) c.len
+  else c.len
+
+/-- **Left / Right / Home / End / PageUp / PageDown** in `Entering` with a non-empty buffer: absorbed;
+    symbols, gaps, selections and saved cursors are untouched; the cursor goes where specified
+    (Left saturates at 0, Right at the end; PageUp and PageDown act like End, as coded) -/
+theorem move_key {e : Editor D L} {ev : KeyEvent} {sh : Shared D L} {st : St}
+    (hs : e.state = .entering) (hne : e.shared.com.isEmpty = false) (hk : MoveKey ev)
+    (h : dispatch env e ev = .ok (sh, st)) :
+    st = .entering ∧ sh.last = .absorb ∧ sh.com.inner = e.shared.com.inner ∧
+    sh.com.stack = e.shared.com.stack ∧ sh.com.cursor = moveTarget ev e.shared.com := by
+  rw [dispatch_entering_eq env ev hs] at h
+  have hm := enteringNext_moves env (sh := preamble e.shared) (ev := ev) hne
+  cases hk with
+  | home hk =>
+    rw [hm.1 hk] at h
+    simp only [Outcome.map, applyTrans] at h; injection h with h; injection h with h1 h2; subst h1 h2
+    exact ⟨rfl, rfl, rfl, rfl, by simp [moveTarget, hk]; rfl⟩
+  | left hk hsh =>
+    rw [hm.2.1 hk hsh] at h
+    simp only [Outcome.map, applyTrans] at h; injection h with h; injection h with h1 h2; subst h1 h2
+    exact ⟨rfl, rfl, rfl, rfl, by simp [moveTarget, hk, KC.left, KC.home]; rfl⟩
+  | right hk hsh =>
+    rw [hm.2.2.1 hk hsh] at h
+    simp only [Outcome.map, applyTrans] at h; injection h with h; injection h with h1 h2; subst h1 h2
+    exact ⟨rfl, rfl, rfl, rfl, by simp [moveTarget, hk, KC.left, KC.home, KC.right]; rfl⟩
+  | toEnd hk =>
+    rw [hm.2.2.2 hk] at h
+    simp only [Outcome.map, applyTrans] at h; injection h with h; injection h with h1 h2; subst h1 h2
+    refine ⟨rfl, rfl, rfl, rfl, ?_⟩
+    rcases hk with hk | hk | hk <;> simp [moveTarget, hk, KC.left, KC.home, KC.right, KC.end_, KC.pageUp, KC.pageDown] <;> rfl
+
+end EditorKeys
+
+section EditorKeys2
+variable {D L : Type} (env : Env D L)
+
+/-- `c'` is `c` with the symbols `xs` inserted exactly at the cursor, the cursor behind them, every
+    other symbol in place, the saved cursors untouched -/
+def InsertedAt (c c' : CompEditor) (xs : List Sym) : Prop :=
+  c'.symbols = c.symbols.take c.cursor ++ xs ++ c.symbols.drop c.cursor ∧
+  c'.cursor = c.cursor + xs.length ∧ c'.stack = c.stack
+
+theorem insertedAt_nil (c : CompEditor) : InsertedAt c c [] := by
+  simp [InsertedAt]
+
+theorem insertedAt_one {c c' : CompEditor} {x : Sym} (h : c.insert x = .ok c') : InsertedAt c c' [x] := by
+  obtain ⟨a, b, d, _⟩ := insert_at_cursor c x c' h
+  exact ⟨a, b, d⟩
+
+theorem take_insert {α : Type} (s : List α) (c : Nat) (x : α) (h : c ≤ s.length) :
+    (s.take c ++ [x] ++ s.drop c).take (c + 1) = s.take c ++ [x] ∧
+    (s.take c ++ [x] ++ s.drop c).drop (c + 1) = s.drop c := by
+  have hl : (s.take c ++ [x]).length = c + 1 := by simp [List.length_take, Nat.min_eq_left h]
+  exact ⟨List.take_left' hl, List.drop_left' hl⟩
+
+/-- `insertChars`: the characters appear, in order, exactly at the cursor; the cursor ends behind them -/
+theorem insertChars_frame (cs : List Nat) : ∀ (c c' : CompEditor), insertChars c cs = .ok c' →
+    InsertedAt c c' (cs.map Sym.chr) := by
+  induction cs with
+  | nil =>
+    intro c c' h
+    simp only [insertChars] at h; cases h
+    exact insertedAt_nil c
+  | cons x xs ih =>
+    intro c c' h
+    simp only [insertChars] at h
+    split at h
+    · next c1 h1 =>
+      obtain ⟨hs, hc, hst, hle⟩ := insert_at_cursor c (.chr x) c1 h1
+      obtain ⟨a1, a2, a3⟩ := ih c1 c' h
+      obtain ⟨t1, t2⟩ := take_insert c.symbols c.cursor (Sym.chr x) hle
+      refine ⟨?_, by rw [a2, hc]; simp; omega, by rw [a3, hst]⟩
+      rw [a1, hc, hs, t1, t2]
+      simp
+    · cases h
+    · cases h
+
+/-- effect of an arm that may only insert at the cursor: the buffer is as before (then nothing is
+    said about the transition) or `xs` was inserted at the cursor and the key is absorbed -/
+def InsStep (c0 : CompEditor) (r : StepRes D L) : Prop :=
+  ∀ sh' t, r = .ok (sh', t) → sh'.com = c0 ∨ (t = .spin .absorb ∧ ∃ xs : List Nat, InsertedAt c0 sh'.com (xs.map Sym.chr))
+
+theorem ins_withCom_one (sh : Shared D L) (x : Nat) :
+    InsStep sh.com (withCom sh (sh.com.insert (.chr x)) fun sh => .ok (sh, .spin .absorb)) := by
+  intro sh' t h
+  obtain ⟨c, hc, hk⟩ := withCom_ok h
+  injection hk with hk; injection hk with h1 h2; subst h1 h2
+  exact Or.inr ⟨rfl, [x], insertedAt_one hc⟩
+
+theorem ins_commitOrInsert (sh : Shared D L) (ch : Nat) : InsStep sh.com (commitOrInsert sh ch) := by
+  intro sh' t h
+  rcases commitOrInsert_spec h with ⟨_, rfl, _⟩ | ⟨_, ht, hi, _⟩
+  · exact Or.inl rfl
+  · exact Or.inr ⟨ht, [ch], insertedAt_one hi⟩
+
+theorem ins_inputChar (sh : Shared D L) (ev : KeyEvent) : InsStep sh.com (inputChar sh ev) := by
+  unfold inputChar fullOrBell
+  repeat' split
+  all_goals first
+    | exact ins_commitOrInsert _ _
+    | (intro sh' t h; injection h with h; injection h with h1 h2; subst h1; exact Or.inl rfl)
+
+theorem ins_chineseFallback (sh : Shared D L) (ev : KeyEvent) : InsStep sh.com (chineseFallback sh ev) := by
+  unfold chineseFallback
+  repeat' split
+  all_goals first
+    | exact ins_withCom_one _ _
+    | exact ins_inputChar _ _
+    | (intro sh' t h; injection h with h; injection h with h1 h2; subst h1; exact Or.inl rfl)
+
+/-- **the catch-all arm of `Entering::next` only ever inserts at the cursor**: after it the buffer
+    is unchanged, or some characters were inserted exactly at the cursor (cursor behind them) and
+    the key is absorbed -/
+theorem ins_enteringDefault (sh : Shared D L) (ev : KeyEvent) : InsStep sh.com (enteringDefault env sh ev) := by
+  unfold enteringDefault
+  repeat' split
+  all_goals first
+    | exact ins_withCom_one _ _
+    | exact ins_inputChar _ _
+    | exact ins_chineseFallback _ _
+    | exact ins_chineseFallback { sh with syl := (env.keyPress sh.syl ev).2 } ev
+    | (intro sh' t h; injection h with h; injection h with h1 h2; subst h1; exact Or.inl rfl)
+    | skip
+  -- easy-symbol abbreviation
+  intro sh' t h
+  obtain ⟨c, hc, hk⟩ := withCom_ok h
+  injection hk with hk; injection hk with h1 h2; subst h1 h2
+  exact Or.inr ⟨rfl, _, insertChars_frame _ _ _ hc⟩
+
+/-- **a symbol key** (any key that reaches the numlock arm or the catch-all arm of `Entering`, in
+    either language mode and character form, ±easy-symbol input): the buffer is unchanged, or
+    characters were inserted exactly at the cursor, the cursor is behind them, nothing else moved -/
+theorem symbol_key_inserts_at_cursor {e : Editor D L} {ev : KeyEvent} {sh : Shared D L} {st : St}
+    (hs : e.state = .entering) (hd : DefaultArm (preamble e.shared) ev) (h : dispatch env e ev = .ok (sh, st)) :
+    sh.com = e.shared.com ∨
+    (st = .entering ∧ sh.last = .absorb ∧ ∃ xs : List Nat, InsertedAt e.shared.com sh.com (xs.map Sym.chr)) := by
+  rw [dispatch_entering_eq env ev hs, enteringNext_default env hd] at h
+  obtain ⟨⟨sh', t⟩, hr, hx⟩ := map_ok h
+  have : InsStep (preamble e.shared).com
+      (if ev.mods.numlock = true then commitOrInsert (preamble e.shared) ev.unicode
+       else enteringDefault env (preamble e.shared) ev) := by
+    split
+    · exact ins_commitOrInsert _ _
+    · exact ins_enteringDefault env _ _
+  rcases this sh' t hr with h1 | ⟨ht, xs, hi⟩
+  · left
+    cases t <;> (simp only [applyTrans] at hx; injection hx with h2 h3; subst h2; exact h1)
+  · right
+    subst ht
+    simp only [applyTrans] at hx; injection hx with h2 h3; subst h2 h3
+    exact ⟨rfl, rfl, xs, hi⟩
+
+/-- **easy-symbol input**: a key with an abbreviation of `k` characters inserts exactly those `k`
+    characters at the cursor, in order, and the cursor advances by `k` (one pass, one key) -/
+theorem easy_symbol_expansion {e : Editor D L} {ev : KeyEvent} {sh : Shared D L} {st : St} {expanded : Text}
+    (hs : e.state = .entering) (hd : DefaultArm (preamble e.shared) ev) (hn : ev.mods.numlock = false)
+    (hl : e.shared.options.languageMode = .chinese) (he : e.shared.options.easySymbolInput = true)
+    (hg : ¬ (ev.code = KC.grave ∧ ev.mods.isNone = true)) (hsp : ev.code ≠ KC.space)
+    (ha : (e.shared.abbr.find? (fun p => p.1 == ev.unicode)).map (·.2) = some expanded)
+    (h : dispatch env e ev = .ok (sh, st)) :
+    st = .entering ∧ sh.last = .absorb ∧ InsertedAt e.shared.com sh.com (expanded.map Sym.chr) := by
+  rw [dispatch_entering_eq env ev hs, enteringNext_default env hd] at h
+  obtain ⟨⟨sh', t⟩, hr, hx⟩ := map_ok h
+  rw [if_neg (by simp [hn])] at hr
+  unfold enteringDefault at hr
+  have e1 : (preamble e.shared).options = e.shared.options := rfl
+  have e2 : (preamble e.shared).abbr = e.shared.abbr := rfl
+  rw [e1, hl] at hr
+  simp only at hr
+  rw [if_neg (by simpa using hg), if_neg (by simpa using hsp), if_pos he, e2, ha] at hr
+  simp only at hr
+  obtain ⟨c, hc, hk⟩ := withCom_ok hr
+  injection hk with hk; injection hk with h1 h2; subst h1 h2
+  simp only [applyTrans] at hx; injection hx with h2 h3; subst h2 h3
+  exact ⟨rfl, rfl, insertChars_frame _ _ _ hc⟩
+
+end EditorKeys2
+
+section EditorSyl
+variable {D L : Type} (env : Env D L)
+
+/-- the layout's answer to a key in `EnteringSyllable` (by lookup strategy): behaviour and new layout state -/
+def layoutAnswer (sh : Shared D L) (ev : KeyEvent) : LayoutBeh × L :=
+  match sh.options.lookupStrategy with
+  | .fuzzyPartialPrefix => env.fuzzyKeyPress sh.syl ev
+  | .standard => env.keyPress sh.syl ev
+
+/-- a key of `EnteringSyllable` that is handed to the phonetic layout -/
+def LayoutKey (ev : KeyEvent) : Prop :=
+  ev.code ≠ KC.backspace ∧ ev.code ≠ KC.esc ∧ ¬ (ev.code = KC.unknown ∧ ev.mods.capslock = true)
+
+theorem enteringSyllableNext_layout {sh : Shared D L} {ev : KeyEvent} (hk : LayoutKey ev) :
+    enteringSyllableNext env sh ev =
+      syllableAnswer env { sh with syl := (layoutAnswer env sh ev).2 } (layoutAnswer env sh ev).1 := by
+  obtain ⟨h1, h2, h3⟩ := hk
+  unfold enteringSyllableNext layoutAnswer
+  rw [if_neg (by simpa using h1), if_neg (by simpa using h3), if_neg (by simpa using h2)]
+  cases sh.options.lookupStrategy <;> rfl
+
+/-- **a completed syllable is inserted exactly at the cursor** — for every phonetic layout (through
+    `env`): in `EnteringSyllable`, the layout answers *Commit* and the dictionary has a word for the
+    syllable ⇒ exactly one syllable symbol is inserted at the cursor, the cursor advances by one,
+    every other symbol keeps its place.  With the simple engine the editor goes on to `Selecting`
+    (saving the new cursor), the buffer effect is the same. -/
+theorem syllable_commit_inserts_one {e : Editor D L} {ev : KeyEvent} {sh : Shared D L} {st : St}
+    (hs : e.state = .enteringSyllable) (hk : LayoutKey ev)
+    (hc : (layoutAnswer env e.shared ev).1 = .commit)
+    (hw : env.hasPhrase e.shared.dict [env.read (layoutAnswer env e.shared ev).2] e.shared.options.lookupStrategy = true)
+    (h : dispatch env e ev = .ok (sh, st)) :
+    sh.com.symbols = e.shared.com.symbols.take e.shared.com.cursor ++
+        [Sym.syl (env.read (layoutAnswer env e.shared ev).2)] ++ e.shared.com.symbols.drop e.shared.com.cursor ∧
+    sh.com.cursor = e.shared.com.cursor + 1 ∧ sh.last = .absorb ∧
+    (e.shared.options.conversionEngine ≠ .simple → st = .entering ∧ sh.com.stack = e.shared.com.stack) ∧
+    (e.shared.options.conversionEngine = .simple →
+      (∃ s, st = .selecting s) ∧ sh.com.stack = e.shared.com.stack ++ [e.shared.com.cursor + 1]) := by
+  rw [dispatch_syllable_eq env ev hs, enteringSyllableNext_layout env hk] at h
+  obtain ⟨⟨sh', t⟩, hr, hx⟩ := map_ok h
+  have ela : layoutAnswer env (preamble e.shared) ev = layoutAnswer env e.shared ev := rfl
+  rw [ela, hc] at hr
+  unfold syllableAnswer at hr
+  simp only at hr
+  have hw' : env.hasPhrase (preamble e.shared).dict [env.read (layoutAnswer env e.shared ev).2]
+      (preamble e.shared).options.lookupStrategy = true := hw
+  rw [if_pos hw'] at hr
+  obtain ⟨c, hci, hkk⟩ := withCom_ok hr
+  obtain ⟨a1, a2, a3, _⟩ := insert_at_cursor _ _ _ hci
+  dsimp only at hkk
+  split at hkk
+  · next hsim =>
+    have hsim' : e.shared.options.conversionEngine = .simple := by
+      have : (preamble e.shared).options.conversionEngine = .simple := by simpa using hsim
+      exact this
+    unfold newPhraseSimple at hkk
+    simp only at hkk
+    split at hkk
+    · injection hkk with hkk; injection hkk with h1 h2; subst h1 h2
+      simp only [applyTrans] at hx; injection hx with h2 h3; subst h2 h3
+      refine ⟨a1, a2, rfl, fun hne => absurd hsim' hne, fun _ => ⟨⟨_, rfl⟩, ?_⟩⟩
+      show c.stack ++ [c.cursor] = _
+      rw [a3, a2]; rfl
+    · cases hkk
+    · cases hkk
+  · next hsim =>
+    have hsim' : e.shared.options.conversionEngine ≠ .simple := by
+      have : (preamble e.shared).options.conversionEngine ≠ .simple := by simpa using hsim
+      exact this
+    injection hkk with hkk; injection hkk with h1 h2; subst h1 h2
+    simp only [applyTrans] at hx; injection hx with h2 h3; subst h2 h3
+    exact ⟨a1, a2, rfl, fun _ => ⟨rfl, a3⟩, fun hq => absurd hq hsim'⟩
+
+/-- without a word for the syllable nothing is inserted (the phonetic buffer is dropped) -/
+theorem syllable_commit_no_word {e : Editor D L} {ev : KeyEvent} {sh : Shared D L} {st : St}
+    (hs : e.state = .enteringSyllable) (hk : LayoutKey ev)
+    (hc : (layoutAnswer env e.shared ev).1 = .commit)
+    (hw : env.hasPhrase e.shared.dict [env.read (layoutAnswer env e.shared ev).2] e.shared.options.lookupStrategy = false)
+    (h : dispatch env e ev = .ok (sh, st)) :
+    sh.com = e.shared.com ∧ st = .entering := by
+  rw [dispatch_syllable_eq env ev hs, enteringSyllableNext_layout env hk] at h
+  obtain ⟨⟨sh', t⟩, hr, hx⟩ := map_ok h
+  have ela : layoutAnswer env (preamble e.shared) ev = layoutAnswer env e.shared ev := rfl
+  rw [ela, hc] at hr
+  unfold syllableAnswer at hr
+  simp only at hr
+  have hw' : env.hasPhrase (preamble e.shared).dict [env.read (layoutAnswer env e.shared ev).2]
+      (preamble e.shared).options.lookupStrategy = false := hw
+  rw [if_neg (by simp [hw'])] at hr
+  injection hr with hr; injection hr with h1 h2; subst h1 h2
+  simp only [applyTrans] at hx; injection hx with h2 h3; subst h2 h3
+  exact ⟨rfl, rfl⟩
+
+end EditorSyl
+
+/-! ## The buffer stays bounded
+
+`try_auto_commit` runs after every key whose state machine step ends in `Entering` with *absorb*.
+Its loop removes whole leading intervals of the current conversion until at most
+`auto_commit_threshold` symbols remain — this needs the conversion to cover the buffer
+(`TilingEnv`: every alternative the engine returns is well formed and its interval lengths sum to the
+buffer length; that is what C03 proves about the real engines, here it is a hypothesis on `env`). -/
+
+section EditorBounded
+variable {D L : Type} (env : Env D L)
+
+/-- hypothesis on the conversion engine (C03): every alternative covers the buffer -/
+def TilingEnv : Prop :=
+  ∀ (k : EngineKind) (d : D) (c : Composition) (paths : List (List Interval)),
+    env.convert k d c = .ok paths → ∀ ivs ∈ paths, TilesLen ivs c.len
+
+/-- `try_auto_commit` re-establishes `len ≤ threshold` (and with a tiling conversion its loop neither
+    underflows nor over-removes: no panic beyond a panic of the engine itself); only a prefix is removed -/
+theorem tryAutoCommit_bound (ht : TilingEnv env) {sh sh2 : Shared D L} (h : Shared.tryAutoCommit env sh = .ok sh2) :
+    sh2.com.len ≤ sh2.options.autoCommitThreshold ∧ sh2.options = sh.options ∧
+    ∃ n, sh2.com.symbols = sh.com.symbols.drop n ∧ sh2.com.cursor = sh.com.cursor - n := by
+  unfold Shared.tryAutoCommit at h
+  dsimp only at h
+  split at h
+  · next hle => cases h; exact ⟨hle, rfl, 0, by simp, rfl⟩
+  · next hgt =>
+    split at h
+    · cases h
+    · cases h
+    · rename_i ivs hc
+      obtain ⟨paths, hp, hm⟩ := conversion_mem env hc
+      obtain ⟨hwf, hsum⟩ := ht _ _ _ _ hp ivs hm
+      obtain ⟨buf', r', h1, _, h3, h4⟩ :=
+        autoCommitTake_bound sh.com.len sh.options.autoCommitThreshold ivs [] 0 hwf (by rw [Nat.zero_add]; exact hsum)
+      rw [h1] at h
+      dsimp only at h
+      split at h
+      · rename_i com hq
+        cases h
+        obtain ⟨_, hs, hcur, _⟩ := remove_front_frame _ _ _ hq
+        refine ⟨?_, rfl, r', hs, hcur⟩
+        show com.inner.symbols.length ≤ _
+        have : com.inner.symbols = sh.com.inner.symbols.drop r' := hs
+        rw [this, List.length_drop]
+        exact h4
+      · cases h
+      · cases h
+
+/-- with a tiling conversion the auto-commit never panics on its own account -/
+theorem tryAutoCommit_total (ht : TilingEnv env) (sh : Shared D L) (hc : CompInv sh.com.inner)
+    {ivs : List Interval} (hconv : Shared.conversion env sh = .ok ivs) :
+    ∃ sh2, Shared.tryAutoCommit env sh = .ok sh2 := by
+  unfold Shared.tryAutoCommit
+  dsimp only
+  split
+  · exact ⟨_, rfl⟩
+  · rw [hconv]
+    dsimp only
+    obtain ⟨paths, hp, hm⟩ := conversion_mem env hconv
+    obtain ⟨hwf, hsum⟩ := ht _ _ _ _ hp ivs hm
+    obtain ⟨buf', r', h1, _, h3, _⟩ :=
+      autoCommitTake_bound sh.com.len sh.options.autoCommitThreshold ivs [] 0 hwf (by rw [Nat.zero_add]; exact hsum)
+    rw [h1]
+    dsimp only
+    have := (remove_front_ok_iff sh.com r' hc).mpr h3
+    obtain ⟨com, hq⟩ := this
+    rw [hq]
+    exact ⟨_, rfl⟩
+
+/-- **every absorbed key that ends in `Entering` re-establishes `len ≤ auto_commit_threshold`** —
+    from any state (typing, a chosen candidate, a cancelled list, the end of a highlight), for every
+    threshold including one lowered by a configuration call just before -/
+theorem bounded_after_absorb (ht : TilingEnv env) {e e' : Editor D L} {ev : KeyEvent}
+    (h : e.processKey env ev = .ok (e', .absorb)) (he : e'.state = .entering) :
+    e'.shared.com.len ≤ e'.shared.options.autoCommitThreshold := by
+  obtain ⟨sh, st, _, h2⟩ := processKey_split env h
+  obtain ⟨hst, hb, _⟩ := tail_spec env h2
+  obtain ⟨sh2, h1, hcom, hopt, _, hlast, _⟩ := tail_com env h2
+  rw [hcom, hopt]
+  split at h1
+  · exact (tryAutoCommit_bound env ht h1).1
+  · next hn =>
+    cases h1
+    exfalso
+    apply hn
+    have : sh.last = .absorb := by rw [← hlast]; exact hb.symm
+    rw [← hst, he, this]
+    rfl
+
+/-- **after every key handled in `Entering` that is absorbed or commits, the buffer is no longer than
+    the configured maximum** (an explicit commit empties it; everything else goes through the
+    auto-commit) -/
+theorem bounded_after_key (ht : TilingEnv env) {e e' : Editor D L} {ev : KeyEvent} {b : KB}
+    (hs : e.state = .entering) (h : e.processKey env ev = .ok (e', b)) (he : e'.state = .entering)
+    (hb : b = .absorb ∨ b = .commit) :
+    e'.shared.com.len ≤ e'.shared.options.autoCommitThreshold := by
+  rcases hb with rfl | rfl
+  · exact bounded_after_absorb env ht h he
+  obtain ⟨sh, st, hd, h2⟩ := processKey_split env h
+  obtain ⟨hst, hb, _⟩ := tail_spec env h2
+  obtain ⟨sh2, h1, hcom, hopt, _, hlast, _⟩ := tail_com env h2
+  rw [hcom, hopt]
+  split at h1
+  · exact (tryAutoCommit_bound env ht h1).1
+  · cases h1
+    have hl : sh.last = .commit := by rw [← hlast]; exact hb.symm
+    rw [dispatch_entering_eq env ev hs] at hd
+    obtain ⟨⟨sh', t⟩, hr, hx⟩ := map_ok hd
+    have hcs := cstep_enteringNext env (preamble e.shared) ev sh' t hr
+    cases t with
+    | toState s =>
+      simp only [applyTrans] at hx; injection hx with h3 h4; subst h3
+      cases hl
+    | spin b' =>
+      simp only [applyTrans] at hx; injection hx with h3 h4; subst h3
+      have : b' = .commit := hl
+      subst this
+      have hem := hcs.1 rfl
+      have h0 : sh'.com.len = 0 := by
+        have h1 : (sh'.com.inner.len == 0) = true := hem
+        exact eq_of_beq h1
+      show sh'.com.len ≤ _
+      omega
+
+/-! `EnteringSyllable` never reports *commit* itself (a commit there can only come from the auto-commit) -/
+
+def NoCommit (r : StepRes D L) : Prop := ∀ sh' t, r = .ok (sh', t) → t ≠ .spin .commit
+
+macro "nocommit_leaf" : tactic =>
+  `(tactic| (intro sh' t h; injection h with h; injection h with h1 h2; subst h2; intro c; cases c))
+
+theorem nocommit_withCom (sh : Shared D L) (r : Outcome CompEditor) (k : Shared D L → StepRes D L)
+    (hk : ∀ c, NoCommit (k { sh with com := c })) : NoCommit (withCom sh r k) := by
+  unfold withCom
+  split
+  · exact hk _
+  · intro sh' t h; cases h
+  · intro sh' t h; cases h
+
+theorem nocommit_newPhraseSimple (sh : Shared D L) : NoCommit (newPhraseSimple sh) := by
+  unfold newPhraseSimple
+  dsimp only
+  split
+  · nocommit_leaf
+  · intro sh' t h; cases h
+  · intro sh' t h; cases h
+
+theorem nocommit_syllableAnswer (sh : Shared D L) (beh : LayoutBeh) : NoCommit (syllableAnswer env sh beh) := by
+  unfold syllableAnswer
+  repeat' split
+  all_goals first
+    | nocommit_leaf
+    | (refine nocommit_withCom _ _ _ fun c => ?_; nocommit_leaf)
+    | skip
+  all_goals
+    refine nocommit_withCom _ _ _ fun c => ?_
+    dsimp only
+    split
+    · exact nocommit_newPhraseSimple _
+    · nocommit_leaf
+
+theorem nocommit_enteringSyllableNext (sh : Shared D L) (ev : KeyEvent) :
+    NoCommit (enteringSyllableNext env sh ev) := by
+  unfold enteringSyllableNext
+  split
+  · split <;> nocommit_leaf
+  · split
+    · nocommit_leaf
+    · split
+      · split <;> nocommit_leaf
+      · split
+        · exact nocommit_syllableAnswer env _ _
+        · exact nocommit_syllableAnswer env _ _
+
+/-- **the same bound for keys handled while phonetic keys are pending** (`EnteringSyllable`): when the
+    key ends in `Entering` with *absorb* or *commit* — in particular when it completed a syllable that was
+    inserted — the buffer is within the limit -/
+theorem bounded_after_key_syllable (ht : TilingEnv env) {e e' : Editor D L} {ev : KeyEvent} {b : KB}
+    (hs : e.state = .enteringSyllable) (h : e.processKey env ev = .ok (e', b)) (he : e'.state = .entering)
+    (hb : b = .absorb ∨ b = .commit) :
+    e'.shared.com.len ≤ e'.shared.options.autoCommitThreshold := by
+  rcases hb with rfl | rfl
+  · exact bounded_after_absorb env ht h he
+  obtain ⟨sh, st, hd, h2⟩ := processKey_split env h
+  obtain ⟨hst, hb, _⟩ := tail_spec env h2
+  obtain ⟨sh2, h1, hcom, hopt, _, hlast, _⟩ := tail_com env h2
+  rw [hcom, hopt]
+  split at h1
+  · exact (tryAutoCommit_bound env ht h1).1
+  · cases h1
+    exfalso
+    have hl : sh.last = .commit := by rw [← hlast]; exact hb.symm
+    rw [dispatch_syllable_eq env ev hs] at hd
+    obtain ⟨⟨sh', t⟩, hr, hx⟩ := map_ok hd
+    have hnc := nocommit_enteringSyllableNext env (preamble e.shared) ev sh' t hr
+    cases t with
+    | toState s =>
+      simp only [applyTrans] at hx; injection hx with h3 h4; subst h3
+      cases hl
+    | spin b' =>
+      simp only [applyTrans] at hx; injection hx with h3 h4; subst h3
+      have : b' = .commit := hl
+      subst this
+      exact hnc rfl
+
+/-- non-vacuity of the hypothesis: an engine that answers with one interval per symbol tiles -/
+example : TilesLen [{ start := 0, stop := 1, isPhrase := false, text := [97] }, { start := 1, stop := 3, isPhrase := true, text := [98, 99] }] 3 :=
+  ⟨by decide, by decide⟩
+
+end EditorBounded
 
 end Chewing.C05
